@@ -1611,7 +1611,14 @@ func (c *Conn) readHeader(fr *FrameHeader, r *Ctx) error {
 	for len(b) > 0 {
 		pb := b
 
-		b, err = dec.nextField(hf, blockStart, r.hdrFields, b)
+		var got bool
+
+		b, got, err = dec.nextField(hf, blockStart, r.hdrFields, b)
+		if err == nil && !got {
+			// the fragment ended on a dynamic table size update
+			break
+		}
+
 		if err != nil {
 			// The field runs past the end of this frame: the rest is in the
 			// CONTINUATION frame that has to follow.
